@@ -4,7 +4,6 @@ go 1.20
 
 require (
 	github.com/go-kid/ioc v0.0.0
-	github.com/go-kid/strconv2 v0.0.2
 	github.com/pkg/errors v0.9.1
 )
 
@@ -13,6 +12,7 @@ require (
 	github.com/fsnotify/fsnotify v1.7.0 // indirect
 	github.com/gabriel-vasile/mimetype v1.4.3 // indirect
 	github.com/go-kid/properties v0.0.6 // indirect
+	github.com/go-kid/strconv2 v0.0.2 // indirect
 	github.com/go-kid/strings2 v0.0.1 // indirect
 	github.com/go-playground/locales v0.14.1 // indirect
 	github.com/go-playground/universal-translator v0.18.1 // indirect
